@@ -189,10 +189,12 @@ def data_program(rnd):
 
 def break_program(rnd, files):
     """one seeded breaking mutation on a valid program's text -> diagnostics"""
-    name = rnd.choice(sorted(files))
+    # prefer a file that has not been broken yet
+    fresh = [f for f in sorted(files) if "zz_" not in files[f] and "undefined_name_" not in files[f]]
+    name = rnd.choice(fresh or sorted(files))
     text = files[name]
     lines = text.split("\n")
-    kind = rnd.choice(["undefined", "duplicate", "syntax", "type", "missing_import", "bad_call"])
+    kind = rnd.choice(["undefined", "duplicate", "syntax", "type", "missing_import", "bad_call", "type"])
     cand = [i for i, l in enumerate(lines) if "emit(" in l and "::" not in l]
     defs = [i for i, l in enumerate(lines) if re.match(r"^[A-Za-z_]\w* :", l)]
     if kind == "undefined" and cand:
@@ -245,8 +247,13 @@ def make_program(rnd):
     files = gen.render(prog, variant)
     label = "G-valid"
     if r > 0.72:
-        files, kind = break_program(rnd, files)
-        label = "G-invalid:" + kind
+        # one to three seeded mutations; with several files they tend to land in different ones,
+        # so that diagnostics of more than one file have to come out in a stable order
+        kinds = []
+        for _ in range(rnd.choice([1, 1, 2, 3])):
+            files, kind = break_program(rnd, files)
+            kinds.append(kind)
+        label = "G-invalid:" + "+".join(sorted(set(kinds)))
     return files, "main.capy", label, False
 
 
@@ -716,7 +723,7 @@ def main(tier, seed, replay_path=None):
             dims[k] = dims.get(k, 0) + v
         for k, v in r["histories"].items():
             hists[k] = hists.get(k, 0) + v
-        lab = r["label"].split(":")[0] + (":" + r["label"].split(":")[1] if r["label"].startswith("G-invalid") else "")
+        lab = r["label"].split(":")[0]
         labels[lab] = labels.get(lab, 0) + 1
         if r["discarded"]:
             discarded[r["discarded"]] = discarded.get(r["discarded"], 0) + 1
